@@ -28,7 +28,7 @@ pub fn positions(rest: &[String]) -> i32 {
         n += 1;
         let fam = r["fam"].as_str().unwrap_or("").to_string();
         *fams.entry(fam.clone()).or_default() += 1;
-        let res = std::panic::catch_unwind(|| {
+        let res = crate::unwind_safe(|| {
             let g = proj::game_from_fields(r);
             let mvs: Vec<i64> = g.moves().iter().map(|m| proj::pack_move(*m)).collect();
             // the check verdict reached by playing each move (and the verdict of the position itself once the move is taken back)
@@ -170,6 +170,9 @@ pub fn game(rest: &[String]) -> i32 {
             }
             if (&full["ph"], &full["mg"], &full["eg"]) != (&full["phs"], &full["mgs"], &full["egs"]) {
                 diffs.push("acc");
+            }
+            if full["seel"] != full["seef"] {
+                diffs.push("see");
             }
             distinct.insert(game.to_fen());
             if !diffs.is_empty() {
